@@ -419,6 +419,7 @@ func (ex *Exec) mergeInto(a, b *State) bool {
 		o  *Object
 	}
 	var upds []upd
+	var unmergeable []int
 	for id, oa := range a.Heap {
 		ob, ok := b.Heap[id]
 		if !ok || oa == ob {
@@ -426,9 +427,21 @@ func (ex *Exec) mergeInto(a, b *State) bool {
 		}
 		m, ok := c.mergeVal(gB, ob.V, oa.V)
 		if !ok {
-			m = Poison{"object diverged between merged paths"}
+			unmergeable = append(unmergeable, id)
+			continue
 		}
 		upds = append(upds, upd{id, &Object{V: m, Type: oa.Type}})
+	}
+	if len(unmergeable) > 0 {
+		ra, rb := ex.reachable(a), ex.reachable(b)
+		for _, id := range unmergeable {
+			if ra[id] || rb[id] {
+				return false
+			}
+		}
+		for _, id := range unmergeable {
+			upds = append(upds, upd{id, &Object{V: Poison{"dead object diverged between merged paths"}, Type: a.Heap[id].Type}})
+		}
 	}
 	for id, ob := range b.Heap {
 		if _, ok := a.Heap[id]; !ok {
@@ -492,5 +505,262 @@ func (m *MapObj) Identical(o Value) bool {
 			return false
 		}
 	}
+	return true
+}
+
+// reachable: ids of objects reachable from the live locals of every frame and from
+// global / boot objects modified since the harness started.
+func (ex *Exec) reachable(s *State) map[int]bool {
+	seen := map[int]bool{}
+	var stack []int
+	var visit func(v Value)
+	push := func(id int) {
+		if id != 0 && !seen[id] {
+			seen[id] = true
+			stack = append(stack, id)
+		}
+	}
+	visit = func(v Value) {
+		switch x := v.(type) {
+		case Ptr:
+			push(x.Obj)
+		case SliceV:
+			push(x.Obj)
+		case MapV:
+			push(x.Obj)
+		case IfaceV:
+			visit(x.V)
+		case *StructV:
+			for _, f := range x.F {
+				visit(f)
+			}
+		case *ArrayV:
+			for _, e := range x.E {
+				switch e.(type) {
+				case *Term, nil:
+				default:
+					visit(e)
+				}
+			}
+		case *FuncV:
+			if x != nil {
+				for _, b := range x.Bind {
+					visit(b)
+				}
+			}
+		case TupleV:
+			for _, e := range x {
+				visit(e)
+			}
+		case *MapObj:
+			for _, k := range x.Keys {
+				visit(x.K[k])
+				visit(x.V[k])
+			}
+		case *iterObj:
+			visit(x.m)
+		case refHolder:
+			for _, r := range x.Refs() {
+				visit(r)
+			}
+		}
+	}
+	for i, fr := range s.Stack {
+		if fr.Block == nil {
+			continue
+		}
+		ip := fr.IP
+		if i < len(s.Stack)-1 {
+			ip++
+		}
+		for v := range ex.liveAt(fr.Block, ip) {
+			if lv, ok := fr.Locals[v]; ok {
+				visit(lv)
+			}
+		}
+		for _, d := range fr.Defers {
+			visit(d.fn)
+			for _, a := range d.args {
+				visit(a)
+			}
+		}
+	}
+	for id, o := range s.Heap {
+		if id <= ex.bootMaxObj || ex.globalSet[id] {
+			if bo, ok := ex.Boot.Heap[id]; !ok || bo != o {
+				push(id)
+			}
+		}
+	}
+	for len(stack) > 0 {
+		id := stack[len(stack)-1]
+		stack = stack[:len(stack)-1]
+		o := s.Heap[id]
+		if o == nil {
+			continue
+		}
+		if id <= ex.bootMaxObj {
+			if bo, ok := ex.Boot.Heap[id]; ok && bo == o {
+				continue // unmodified boot object: points to boot objects only
+			}
+		}
+		visit(o.V)
+	}
+	return seen
+}
+
+type refHolder interface{ Refs() []Value }
+
+// ---------------------------------------------------------------- post-dominators (for lazy diamonds)
+
+func (ex *Exec) ipdom(b *ssa.BasicBlock) *ssa.BasicBlock {
+	fn := b.Parent()
+	m, ok := ex.pdoms[fn]
+	if !ok {
+		m = computeIPdom(fn)
+		ex.pdoms[fn] = m
+	}
+	return m[b]
+}
+
+// computeIPdom: immediate post-dominators, treating only Return blocks as exits
+// (paths ending in panic are ignored).
+func computeIPdom(fn *ssa.Function) map[*ssa.BasicBlock]*ssa.BasicBlock {
+	n := len(fn.Blocks)
+	exit := n
+	succs := make([][]int, n+1)
+	preds := make([][]int, n+1)
+	for _, b := range fn.Blocks {
+		if len(b.Instrs) > 0 {
+			if _, ok := b.Instrs[len(b.Instrs)-1].(*ssa.Return); ok {
+				succs[b.Index] = append(succs[b.Index], exit)
+				preds[exit] = append(preds[exit], b.Index)
+			}
+		}
+		for _, sc := range b.Succs {
+			succs[b.Index] = append(succs[b.Index], sc.Index)
+			preds[sc.Index] = append(preds[sc.Index], b.Index)
+		}
+	}
+	order := []int{}
+	seen := make([]bool, n+1)
+	var dfs func(int)
+	dfs = func(u int) {
+		seen[u] = true
+		for _, p := range preds[u] {
+			if !seen[p] {
+				dfs(p)
+			}
+		}
+		order = append(order, u)
+	}
+	dfs(exit)
+	rpo := make([]int, n+1)
+	for i := range rpo {
+		rpo[i] = -1
+	}
+	for i, u := range order {
+		rpo[u] = len(order) - 1 - i
+	}
+	idom := make([]int, n+1)
+	for i := range idom {
+		idom[i] = -1
+	}
+	idom[exit] = exit
+	intersect := func(a, b int) int {
+		for a != b {
+			for rpo[a] > rpo[b] {
+				a = idom[a]
+			}
+			for rpo[b] > rpo[a] {
+				b = idom[b]
+			}
+		}
+		return a
+	}
+	changed := true
+	for changed {
+		changed = false
+		for i := len(order) - 1; i >= 0; i-- {
+			u := order[i]
+			if u == exit {
+				continue
+			}
+			ni := -1
+			for _, sc := range succs[u] {
+				if rpo[sc] < 0 || idom[sc] < 0 {
+					continue
+				}
+				if ni < 0 {
+					ni = sc
+				} else {
+					ni = intersect(ni, sc)
+				}
+			}
+			if ni >= 0 && idom[u] != ni {
+				idom[u] = ni
+				changed = true
+			}
+		}
+	}
+	res := map[*ssa.BasicBlock]*ssa.BasicBlock{}
+	for _, b := range fn.Blocks {
+		if d := idom[b.Index]; d >= 0 && d != exit {
+			res[b] = fn.Blocks[d]
+		}
+	}
+	return res
+}
+
+// lazyDiamond: the branch at the end of b rejoins at a post-dominator inside the same
+// innermost loop, and neither arm contains calls or loops: both arms may be explored without
+// asking the solver (an infeasible arm just contributes an unsatisfiable guard to the merge).
+func (ex *Exec) lazyDiamond(b *ssa.BasicBlock) bool {
+	if v, ok := ex.lazyCache[b]; ok {
+		return v
+	}
+	res := false
+	defer func() { ex.lazyCache[b] = res }()
+	j := ex.ipdom(b)
+	if j == nil {
+		return false
+	}
+	fi := ex.info(b.Parent())
+	lb, lj := fi.loops[b.Index], fi.loops[j.Index]
+	if len(lb) != len(lj) {
+		return false
+	}
+	for i := range lb {
+		if lb[i] != lj[i] {
+			return false
+		}
+	}
+	// region between b and j: small, acyclic (no block of a deeper loop), no calls
+	seen := map[*ssa.BasicBlock]bool{}
+	stack := append([]*ssa.BasicBlock{}, b.Succs...)
+	count := 0
+	for len(stack) > 0 {
+		x := stack[len(stack)-1]
+		stack = stack[:len(stack)-1]
+		if x == j || seen[x] {
+			continue
+		}
+		if x == b {
+			return false
+		}
+		seen[x] = true
+		count++
+		if count > 12 || len(fi.loops[x.Index]) != len(lb) {
+			return false
+		}
+		for _, in := range x.Instrs {
+			switch in.(type) {
+			case *ssa.Call, *ssa.Go, *ssa.Defer, *ssa.Panic, *ssa.Return, *ssa.RunDefers, *ssa.Select, *ssa.Send:
+				return false
+			}
+		}
+		stack = append(stack, x.Succs...)
+	}
+	res = true
 	return true
 }
